@@ -147,11 +147,15 @@ func (e *eraCtx) evalRows(r *Report, rows []row) {
 		var bad []string
 		n := 0
 		classes := map[string]bool{}
+		definite := false // some disagreeing cell has a definite value (not an unknown left by the abstraction)
 		for _, h := range e.reps {
 			w, g := rw.want(h), rw.got(h)
 			n++
 			classes[w] = true
 			if w != g {
+				if !strings.Contains(g, "⊤") {
+					definite = true
+				}
 				if len(bad) < 6 {
 					bad = append(bad, fmt.Sprintf("h=%d expected %s, code gives %s", h, w, g))
 				}
@@ -169,6 +173,10 @@ func (e *eraCtx) evalRows(r *Report, rows []row) {
 		sort.Strings(cl)
 		if len(bad) == 0 {
 			r.okNT(rw.rule, rw.name, pos, fmt.Sprintf("%d height classes agree with the oracle; values: %s", n, strings.Join(cl, " / ")))
+		} else if !definite {
+			// every disagreement is "unknown": the abstraction lost the value (e.g. the height travels inside a struct);
+			// that is not evidence against the code
+			r.undecided(rw.rule, rw.name, pos, "the table could not be evaluated: "+strings.Join(bad, "; "))
 		} else {
 			r.viol(rw.rule, rw.name, pos, strings.Join(bad, "; "))
 		}
